@@ -33,11 +33,14 @@ _tmp = {}
 
 def setup(ctx):
     import gaddlemaps.parsers._itp_parse as I
-    _cov.watch(I.ItpFile.__init__, 'ItpFile.__init__')
-    _cov.watch(I.ItpFile.write, 'ItpFile.write')
-    _cov.watch(I.ItpLine.line.fget, 'ItpLine.line')
-    _cov.watch(I.ItpLine.parse_itp_line.__func__, 'ItpLine.parse_itp_line')
-    _cov.watch(I.ItpSection.__str__, 'ItpSection.__str__')
+    for label, get in (('ItpFile.__init__', lambda: I.ItpFile.__init__), ('ItpFile.write', lambda: I.ItpFile.write),
+                       ('ItpLine.line', lambda: I.ItpLine.line.fget),
+                       ('ItpLine.parse_itp_line', lambda: I.ItpLine.parse_itp_line.__func__),
+                       ('ItpSection.__str__', lambda: I.ItpSection.__str__)):
+        try:
+            _cov.watch(get(), label)
+        except AttributeError:
+            _cov.missing.append(label)     # renamed/removed by a refactoring: coverage of it is not reported
     _cov.start()
     _tmp['dir'] = tempfile.mkdtemp(prefix='gmv_c16_')
 
